@@ -263,6 +263,19 @@ package slip
 // taken out of the using packages (a user's own definition of the same name, or
 // one it got from a third package, stays), and the flag is cleared on this
 // package's own object.
+// unuse-package: the package's own definitions and its imports stay; an inherited
+// entry is dropped and then taken again only from a package that is still used,
+// only if that package exports it, and never over an entry that is present; the
+// tables themselves are edited in place, never replaced.
+//@ func slip.(*Package).Unuse
+//@   property C13
+//@   no-store vars funcs classes
+//@   on-map-delete vars own-and-imported-stay: $owner == obj && $was.Pkg != obj && (!has(obj.Imports, $key) || obj.Imports[$key] == nil)
+//@   on-map-delete funcs own-and-imported-stay: $owner == obj && $was.Pkg != obj && (!has(obj.Imports, $key) || obj.Imports[$key] == nil)
+//@   on-map-update vars only-exported-where-absent: $owner == obj && !$had && $value.Export
+//@   on-map-update funcs only-exported-where-absent: $owner == obj && !$had && $value.Export
+//@   on-map-update classes only-where-absent: $owner == obj && !$had
+
 //@ func slip.(*Package).Unexport
 //@   property C13
 //@   on-map-delete funcs only-this-packages-entry: $was != nil && $was.Pkg == obj
